@@ -355,6 +355,9 @@ class Interp:
         self.var_names = {}
         self.cond_stack = []
         self.extra_guards = []
+        self.frames = []           # call frames: early returns of the frame are folded into its result (see note_early)
+        self.fold_early = True     # rules that account for early returns themselves (strictly) switch this off
+        self.ref_writes = 0        # writes that went through a &mut reference (caller-visible effects)
 
     # ---- environment ------------------------------------------------------------------------
     class Env:
@@ -419,17 +422,57 @@ class Interp:
                 if isinstance(lc.inner_vars, set):
                     lc.inner_vars |= own
         self.depth += 1
+        fr = {"path": path, "early": [], "loops": len(self.loops), "conds": len(self.cond_stack), "refw": None}
+        self.frames.append(fr)
         try:
             if self.depth > self.max_depth:
                 raise Undecided("inlining depth exceeded at %s" % path)
             try:
-                return self.eval(b["body"], e)
-            except ReturnSignal as r:
-                return r.value
+                try:
+                    ret = self.eval(b["body"], e)
+                except ReturnSignal as r:
+                    ret = r.value
+                return self.fold_frame(fr, ret)
             except ControlUndecided as cu:
                 raise Undecided("function body: %s" % cu.what, cu.span)
         finally:
+            self.frames.pop()
             self.depth -= 1
+
+    def note_early(self, c, value):
+        """One arm of a conditional returned from the function while the other goes on.  The pair is always logged (rules that account
+        for early returns themselves read the log and switch folding off); with folding on, the frame's result becomes
+        ite(c, value, rest-of-function) when the frame is left — provided the shape is one the model can express."""
+        self.early_returns.append((c.key(), value))
+        if not self.fold_early or not self.frames:
+            return
+        fr = self.frames[-1]
+        is_failure = isinstance(value, Opt) and value.some is False
+        in_loop = len(self.loops) > fr["loops"]
+        nested = len(self.cond_stack) > fr["conds"]
+        if is_failure:
+            # an error exit (Err / None): the summaries describe the function on its Ok path, where no error exit was taken; when the
+            # exit is a plain top-level one its condition is folded into the presence of the result, otherwise it is only logged
+            if not in_loop and not nested:
+                fr["early"].append((c, value))
+            return
+        # ControlUndecided: the statement-level opaque fallback must not swallow this (the jump would silently disappear)
+        if in_loop:
+            raise ControlUndecided("value-returning early exit inside a summarised loop of %s (condition %s)" % (fr["path"], c.key()[:80]))
+        if nested:
+            raise ControlUndecided("value-returning early exit nested in another conditional of %s (condition %s)" % (fr["path"], c.key()[:80]))
+        fr["early"].append((c, value))
+        if fr["refw"] is None:
+            fr["refw"] = self.ref_writes
+
+    def fold_frame(self, fr, ret):
+        if not fr["early"]:
+            return ret
+        if fr["refw"] is not None and self.ref_writes != fr["refw"]:
+            raise Undecided("%s writes through a &mut reference after a value-returning early exit: the effect is conditional" % fr["path"])
+        for c, v in reversed(fr["early"]):
+            ret = merge_vals(c, v, ret)
+        return ret
 
     def local_by_name(self, name):
         """Final value of the top-level function's local called `name` (searches nested block environments is not possible after
@@ -832,11 +875,17 @@ class Interp:
                 raise BreakSignal()
             raise ReturnSignal(merge_vals(c, t_ret.value, e_ret.value))
         if t_ret is not None:
-            self.early_returns.append((c.key(), t_ret.value))
+            if t_ret.value is BREAK:
+                self.early_returns.append((c.key(), t_ret.value))     # loop exit: accounted for through self.breaks
+            else:
+                self.note_early(c, t_ret.value)
             restore(env, estate)
             return ev
         if e_ret is not None:
-            self.early_returns.append((c.negate().key(), e_ret.value))
+            if e_ret.value is BREAK:
+                self.early_returns.append((c.negate().key(), e_ret.value))
+            else:
+                self.note_early(c.negate(), e_ret.value)
             restore(env, tstate)
             return tv
         merge_states(env, c, tstate, estate)
@@ -1298,6 +1347,7 @@ class Interp:
 
     def updated(self, cur, path, op, val, binders, guards, env):
         if isinstance(cur, PlaceRef):
+            self.ref_writes += 1
             self.update(cur.var, list(cur.path) + path, op, val, env, binders, guards, summarised=True)
             return cur
         if not path:
@@ -1500,15 +1550,31 @@ def merge_vals(c, a, b):
             return Opt(True, merge_vals(c, a.payload, b.payload))
         if a.some is False and b.some is False:
             return Opt(False)
+        if a.some is False and isinstance(b.some, Cond):
+            return Opt(cond_and(c.negate(), b.some), b.payload)
+        if b.some is False and isinstance(a.some, Cond):
+            return Opt(cond_and(c, a.some), a.payload)
     if isinstance(a, Cond) and isinstance(b, Cond):
         if a.key() == b.key():
             return a
-        return Cond("key", "(%s ? %s : %s)" % (c.key(), a.key(), b.key()))
+        if a.kind == "const":
+            return cond_or(c, b) if a.data else cond_and(c.negate(), b)
+        if b.kind == "const":
+            return cond_or(c.negate(), a) if b.data else cond_and(c, a)
+        return cond_or(cond_and(c, a), cond_and(c.negate(), b))
     if isinstance(a, Opaque) or isinstance(b, Opaque):
         return Opaque("ite(%s)" % c.key())
     if a is b:
         return a
     raise Undecided("merging %r and %r under a condition" % (a, b))
+
+
+def cond_and(a, b):
+    return Cond("key", "(%s && %s)" % (a.key(), b.key()), tree=("and", a.tree, b.tree))
+
+
+def cond_or(a, b):
+    return Cond("key", "(%s || %s)" % (a.key(), b.key()), tree=("or", a.tree, b.tree))
 
 
 def merge_states(env, c, tstate, estate):
